@@ -28,6 +28,15 @@ def run(repo, tier) -> Result:
     cas = shipped_analyses(repo, res)
     check_taint("C15", res, repo, cas, branches_too=False)
     res.rule("R-TRIM", floor=3)
+    # a recursion that consults the list position (a window test in front of `previous reading exists`) stops or re-seeds when the
+    # trimmed list gets short: the recursive formulas must have the definition's case structure
+    from ..rules_vn import compare_class, load_refs
+
+    load_refs(repo)
+    by_name = {ci.name: ci for ci in repo.shipped()}
+    for n in ("EMA", "RMA", "ATR", "OBV", "VWAP", "Supertrend", "RSI", "Counter"):
+        if n in by_name:
+            compare_class("C15", res, repo, by_name[n])
     res.rule("R-TAINT", floor=27)
     from ..framework_rules import check_lifespan_flow
     from ..manager_rules import check_fill
